@@ -4,7 +4,7 @@
 (* functional-dependence halves of C11 and C18.  The accessor expressions  *)
 (* and their pairing come from Almanac.tla; the driver only evaluates them.*)
 (***************************************************************************)
-EXTENDS Almanac, Civil, TraceKit
+EXTENDS Almanac, Civil, BaZiRules, TraceKit
 tvars == << l, rej >>
 
 C11Moment ==
@@ -70,7 +70,34 @@ C18NaYin ==
                        \* the two pillars of each pair share one nayin
                        + (IF i % 2 = 1 /\ i < Len(e.t) THEN Chk("C18.naYin.pairs-share", << x, e.t[i + 1] >>, x[3] = e.t[i + 1][3]) ELSE 0)))
 
+(***************************************************************************)
+(* BzRules (extension): every derived attribute of every chart seen, keyed *)
+(* by the indices of the stems / branches / pairs it is derived from,      *)
+(* against BaZiRules.tla.  Also the coverage of the grid is reported: a    *)
+(* rule nobody exercised would be vacuous.                                 *)
+(***************************************************************************)
+BzRules ==
+  /\ IsEv("BzRules")
+  /\ LET e == Trace[l]
+         GZ(g, z) == Gan[g + 1] \o Zhi[z + 1]
+         PairIdx(g, z) == CHOOSE k \in 0..59 : k % 10 = g /\ k % 12 = z
+     IN Consume(
+          SumSeq(e.wx, LAMBDA r : Chk("EXT.bazi.elements", r, r[3] = PillarElems(r[1], r[2])))
+          + SumSeq(e.xk, LAMBDA r : Chk("EXT.bazi.xun", r, r[2] = XunOf(r[1]) /\ r[3] = XunKongOf(r[1]))
+                                    + Chk("EXT.bazi.nayin", r, r[4] = NaYinOf(r[1])))
+          + SumSeq(e.tg, LAMBDA r : Chk("EXT.bazi.ten-god-of-stem", r, r[3] = TenGod(r[1], r[2])))
+          + SumSeq(e.ds, LAMBDA r : Chk("EXT.bazi.life-stage", r, r[3] = LifeStage(r[1], r[2])))
+          + SumSeq(e.tgz, LAMBDA r : Chk("EXT.bazi.ten-gods-of-branch", r, r[3] = TenGodsOfBranch(r[1], r[2])))
+          + SumSeq(e.hg, LAMBDA r : Chk("EXT.bazi.hidden-stems", r, r[2] = HideGanNames(r[1])))
+          + SumSeq(e.ty, LAMBDA r : Chk("EXT.bazi.conception-month", r, r[3] = TaiYuan(r[1], r[2])
+                                        /\ (\E k \in 0..59 : GanZhiName(k) = r[3] /\ r[4] = NaYinOf(k))))
+          + SumSeq(e.tx, LAMBDA r : Chk("EXT.bazi.conception-breath", r, r[3] = TaiXi(r[1], r[2])
+                                        /\ (\E k \in 0..59 : GanZhiName(k) = r[3] /\ r[4] = NaYinOf(k))))
+          \* coverage of the grid by this run (a rule nobody exercised would be vacuous)
+          + Chk("EXT.bazi.coverage", << Len(e.tg), Len(e.ds), Len(e.hg), Len(e.xk) >>,
+                Len(e.tg) = 100 /\ Len(e.ds) = 120 /\ Len(e.hg) = 12 /\ Len(e.xk) = 60))
+
 TraceInit == KitInit
-TraceNext == C11Moment \/ FDGroups \/ C18Laws \/ C18NaYin
+TraceNext == C11Moment \/ FDGroups \/ C18Laws \/ C18NaYin \/ BzRules
 TraceSpec == TraceInit /\ [][TraceNext]_tvars
 =============================================================================
